@@ -34,6 +34,9 @@ type c05Scenario struct {
 type c05Row[T any] struct {
 	V *T `parquet:"v"`
 }
+type c05Fixed5Row struct {
+	V *[5]byte `parquet:"v"`
+}
 type c05ListRow struct {
 	V []float64 `parquet:"v,list"`
 }
@@ -41,7 +44,7 @@ type c05OptListRow struct {
 	V []*int64 `parquet:"v,list"`
 }
 
-var c05Kinds = []string{"int32", "int64", "uint32", "uint64", "float", "double", "string2", "string16", "string", "doublelist", "optlist", "doubledict", "floatdict", "int64dict", "stringdict"}
+var c05Kinds = []string{"int32", "int64", "uint32", "uint64", "float", "double", "string2", "string16", "string", "doublelist", "optlist", "doubledict", "floatdict", "int64dict", "stringdict", "uuid", "fixed5", "boolean"}
 
 // concretisation tables: index 0 = the special symbol, 1..3 = increasing values; several
 // variants per kind, selected by the seed
@@ -193,6 +196,53 @@ func c05Write(kind string, variant int, pages [][]int) (data []byte, err error) 
 			_, e := w.Write([]c05ListRow{row})
 			return e
 		})
+	case "uuid": // 16-byte big-endian values: the be128 indexer
+		tab := [][4][16]byte{
+			{{0xFF, 0xFF, 0xFF, 0xFF, 0xFF, 0xFF, 0xFF, 0xFF, 0xFF, 0xFF, 0xFF, 0xFF, 0xFF, 0xFF, 0xFF, 0xFF}, {}, {0x7F}, {0x80}},
+			{{1, 2, 3}, {1, 2, 2, 0xFF}, {0, 0, 0, 0, 0, 0, 0, 0, 0, 0, 0, 0, 0, 0, 0, 1}, {0, 0, 0, 0, 0, 0, 0, 0, 1}},
+		}
+		schema := parquet.NewSchema("c05", parquet.Group{"v": parquet.Optional(parquet.UUID())})
+		w := parquet.NewWriter(buf, append([]parquet.WriterOption{schema}, opts...)...)
+		err = write(w, func(p []int) error {
+			rows := make([]parquet.Row, len(p))
+			for i, s := range p {
+				if s >= 0 {
+					x := tab[v%len(tab)][s]
+					rows[i] = parquet.Row{parquet.FixedLenByteArrayValue(x[:]).Level(0, 1, 0)}
+				} else {
+					rows[i] = parquet.Row{parquet.NullValue().Level(0, 0, 0)}
+				}
+			}
+			_, e := w.WriteRows(rows)
+			return e
+		})
+	case "fixed5":
+		tab := [][4][5]byte{{{0xFF, 0xFF, 0xFF, 0xFF, 0xFF}, {}, {0x7F}, {0x80}}, {{1, 2, 3}, {1, 2, 2, 0xFF}, {0, 0, 0, 0, 1}, {0, 0, 1}}}
+		w := parquet.NewGenericWriter[c05Fixed5Row](buf, opts...)
+		err = write(w, func(p []int) error {
+			rows := make([]c05Fixed5Row, len(p))
+			for i, s := range p {
+				if s >= 0 {
+					x := tab[v%len(tab)][s]
+					rows[i].V = &x
+				}
+			}
+			_, e := w.Write(rows)
+			return e
+		})
+	case "boolean":
+		w := parquet.NewGenericWriter[c05Row[bool]](buf, opts...)
+		err = write(w, func(p []int) error {
+			rows := make([]c05Row[bool], len(p))
+			for i, s := range p {
+				if s >= 0 {
+					x := (s+v)%2 == 1
+					rows[i].V = &x
+				}
+			}
+			_, e := w.Write(rows)
+			return e
+		})
 	case "optlist":
 		// one row per page: a list of nullable int64 elements (nulls kept as null elements)
 		w := parquet.NewGenericWriter[c05OptListRow](buf, opts...)
@@ -240,7 +290,7 @@ func c05OrderKind(kind string) string {
 		return "float"
 	case "int64dict":
 		return "int64"
-	case "stringdict":
+	case "stringdict", "uuid", "fixed5":
 		return "bytes"
 	}
 	return kind
@@ -370,11 +420,17 @@ func c05Main(args []string) error {
 			if ci, err := chunk.ColumnIndex(); err == nil && ci != nil {
 				n := ci.NumPages()
 				mins, maxs, nullPage, nullCounts := [][]int{}, [][]int{}, []int{}, []int{}
-				for i := 0; i < n; i++ {
-					mins = append(mins, c05Val(ci.MinValue(i)))
-					maxs = append(maxs, c05Val(ci.MaxValue(i)))
-					nullPage = append(nullPage, b2i(ci.NullPage(i)))
-					nullCounts = append(nullCounts, int(ci.NullCount(i)))
+				pan, msg := guard(func() {
+					for i := 0; i < n; i++ {
+						mins = append(mins, c05Val(ci.MinValue(i)))
+						maxs = append(maxs, c05Val(ci.MaxValue(i)))
+						nullPage = append(nullPage, b2i(ci.NullPage(i)))
+						nullCounts = append(nullCounts, int(ci.NullCount(i)))
+					}
+				})
+				if pan { // the index the writer produced cannot even be enumerated
+					tr.emit("IndexError", ev{"msg": msg, "pages": n})
+					continue
 				}
 				tr.emit("Index", ev{"min": mins, "max": maxs, "nullPage": ints(nullPage), "nullCounts": ints(nullCounts),
 					"asc": b2i(ci.IsAscending()), "desc": b2i(ci.IsDescending())})
